@@ -2,12 +2,15 @@
 
 PROP = dict(
     level="model_checking",
-    technique="TLA+ spec Shutdown.tla (collector + upstream transmission stop sequence after any ingestion prefix) model-checked by TLC incl. termination under fairness; every generated transition replayed into a real InMemCollector + DirectTransmission + fake Honeycomb, with panic and goroutine-leak observation",
+    technique="TLA+ specs Shutdown.tla + StopOrder.tla (order in which Stop takes the collector's parts down while a worker is inside a send tick; TLC proves the repository's order never uses a stopped part and that Stop returns, and refutes the two permuted orders; its overlapped schedules are executed on a real collector in child processes, a panic being the observation); Shutdown.tla (collector + upstream transmission stop sequence after any ingestion prefix) model-checked by TLC incl. termination under fairness; every generated transition replayed into a real InMemCollector + DirectTransmission + fake Honeycomb, with panic and goroutine-leak observation",
     design_ref="DESIGN.md section 5 C36",
     level_text="TLC enumerates Stop requested after every prefix of an ingestion scenario (spans of kept and dropped traces, send ticks, batch dispatches) and checks StoppedClean (nothing buffered or pending after the stop), NothingLost on the ideal design and termination of the stop sequence; every transition is replayed on the real collector and transmission (their real Stop methods, in startstop's order) and the spans a loopback Honeycomb actually received, the transmission's pending gauge, panics, and goroutines still running inside collect/transmit code after the stop must equal the model's.",
     level_note="Data path only (collector + upstream transmission); routers, agent and the main.go signal handling are not driven, so 'stops accepting data' is represented by the scenario ending at StopCollector. The collector's lack of a drain step is the open known finding C36-no-drain (deviation edge). Goroutine-leak observation polls up to 5 s for exiting goroutines. Bounded: 3 traces, 3-4 spans.",
     assumptions=["Honeycomb accepts every batch", "components are stopped in dependency order (collector before the transmission it uses)"],
     stages=[dict(kind="walk", name="shutdown", module="Shutdown", pkg="collect", test="TestVerifShutdown", harness=["collect/collector_test.go", "collect/shutdown_test.go"],
                  cfg={"quick": "MC_Shutdown_q.cfg", "thorough": "MC_Shutdown_big.cfg"}, budget={"quick": 40, "thorough": 300}, maxwalk=20),
+            dict(kind="tlc", name="stop-order", module="StopOrder", cfg={"quick": "MC_StopOrder_code.cfg", "thorough": "MC_StopOrder_code.cfg"}, workers=4),
+            dict(kind="gotest", name="midtick", pkg="collect", test="TestVerifC36MidTick", harness=["collect/collector_test.go", "collect/shutdown_test.go", "collect/c36_midtick_test.go"],
+                 budget={"quick": 60, "thorough": 240}),
             dict(kind="tlc", name="ideal", module="Shutdown", cfg={"quick": "MC_Shutdown_ideal.cfg", "thorough": "MC_Shutdown_ideal.cfg"}, workers=4)],
 )
